@@ -98,13 +98,23 @@ def gen_sequence(rng, n):
             chain()
             continue
         if k < 0.12 or not issued:
-            seq.append(("Create", ["create"], lambda r: "OInt %d" % r["id"]))
+            # created through the C API or by constructing the C++ object: one registry, one id sequence
+            seq.append(("Create", [rng.choice(["create", "create", "createM"])], lambda r: "OInt %d" % r["id"]))
             live.append(issued)
             issued += 1
             continue
         if k < 0.2:
             i = pick_id()
-            seq.append(("Destroy (%d)" % i, ["destroy", i], lambda r: oint(r["r"])))
+            # a live instance is destroyed through the C API or by deleting the C++ object (the destructor, not DestroyIPhreeqc, is then
+            # what removes it from the registry): afterwards the id must be dead for every binding -- probed at once, with a C call on
+            # the same id right before the destruction (a lookup cache must not keep the dead object reachable)
+            probe = i in live and rng.random() < 0.5
+            if probe:
+                emit(i, "C", "GetSw OutputFile", "GetOutputFileOn", None)
+            seq.append(("Destroy (%d)" % i, ["destroyM" if (i in live and rng.random() < 0.4) else "destroy", i], lambda r: oint(r["r"])))
+            if probe:
+                emit(i, rng.choice("CF"), "GetSw OutputFile", "GetOutputFileOn", None)
+                emit(i, "C", "SetSw LogFile true", "SetLogFileOn", 1)
             if i in live:
                 live.remove(i)
                 loaded.discard(i)
